@@ -3,7 +3,7 @@
 //! Eight sketch slots (0..7) per case.  Request lines
 //!   case <n> <kind>
 //!   new <slot> <p> <k>            HyperLogLog::new(p, k)                -> ok | err <Variant>
-//!   add <slot> <h,h,...>          add_hash for each hash, in this order -> ok
+//!   add <slot> <h,h,...>          add_hash for each hash, in this order -> nz=<number of non-zero registers afterwards>
 //!   show <slot>                   p=.. q=.. k=.. n=<#registers> regs=<run-length registers>
 //!   eq <a> <b>                    PartialEq                             -> true | false
 //!   merge <dst> <src>             dst.merge(&src)                       -> ok | err <Variant>
@@ -134,7 +134,7 @@ fn gen(a: &Args) {
     }
 
     // A: insertion order and re-insertion
-    for _ in 0..1200 * scale {
+    for _ in 0..2500 * scale {
         o.case("order");
         let p = some_p(&mut r);
         let k = some_k(&mut r);
@@ -166,7 +166,7 @@ fn gen(a: &Args) {
     }
 
     // B: merge algebra and the union homomorphism
-    for _ in 0..900 * scale {
+    for _ in 0..1800 * scale {
         o.case("merge");
         let p = some_p(&mut r);
         let k = some_k(&mut r);
@@ -223,7 +223,7 @@ fn gen(a: &Args) {
     }
 
     // C: incompatible sketches refuse to merge and stay as they were
-    for _ in 0..500 * scale {
+    for _ in 0..1000 * scale {
         o.case("refuse");
         let (p0, k0) = (some_p(&mut r), some_k(&mut r));
         let (p1, k1) = match r.below(4) {
@@ -253,7 +253,7 @@ fn gen(a: &Args) {
     }
 
     // D: persistence (plain bytes, gzip through niffler, a file on disk, the C entry points)
-    for _ in 0..500 * scale {
+    for _ in 0..1000 * scale {
         o.case("persist");
         let p = some_p(&mut r);
         let k = some_k(&mut r);
@@ -319,7 +319,7 @@ type St = Vec<Option<HyperLogLog>>;
 fn rle<I: IntoIterator<Item = u64>>(xs: I) -> String {
     let mut out = String::new();
     let mut cur: Option<(u64, u64)> = None;
-    let mut flush = |out: &mut String, v: u64, n: u64| {
+    let flush = |out: &mut String, v: u64, n: u64| {
         if !out.is_empty() {
             out.push(',');
         }
@@ -397,7 +397,7 @@ fn step(st: &mut St, ws: &[&str]) -> String {
                 for x in parse_nats(ws[2]) {
                     h.add_hash(x);
                 }
-                "ok".into()
+                format!("nz={}", h.to_vec().iter().filter(|x| **x != 0).count())
             }
             None => "none".into(),
         },
